@@ -50,3 +50,91 @@ impl Clone for ConsistencyChecker {
         unimplemented!()
     }
 }
+
+// ---- tempfile ------------------------------------------------------------------------------------
+pub mod tempfile {
+    use super::*;
+
+    /// A named temporary file: a fresh, private, writable, empty, not yet flushed regular file.
+    #[verifier::external_body]
+    pub struct NamedTempFile {
+        x: u8,
+    }
+
+    /// The path of a former NamedTempFile whose descriptor has been closed (deleted on drop).
+    #[verifier::external_body]
+    pub struct TempPath {
+        x: u8,
+    }
+
+    impl TempPath {
+        pub uninterp spec fn pathv(&self) -> PathV;
+    }
+
+    impl ::std::ops::Deref for TempPath {
+        type Target = Path;
+
+        #[verifier::external_body]
+        fn deref(&self) -> (r: &Path)
+            ensures
+                pv(r) == self.pathv(),
+        {
+            unimplemented!()
+        }
+    }
+
+    impl NamedTempFile {
+        pub uninterp spec fn pathv(&self) -> PathV;
+
+        pub uninterp spec fn ino(&self) -> InodeId;
+
+        /// mkstemp in `dir` (narrowed to the one argument type the crate uses).  PROTOCOL (C02): temporary files
+        /// are only ever created inside the `.kismet_temp` subdirectory of a configured cache directory.
+        #[verifier::external_body]
+        pub fn new_in(dir: Cow<Path>, Tracked(w): Tracked<&mut World>) -> (r: std::io::Result<NamedTempFile>)
+            requires
+                old(w).inv(),
+                old(w).is_temp_dir(cowv(dir)) && !old(w).under_ro(cowv(dir)),   // @L C02 C15 C16:temporary-files-live-in-kismet-temp
+            ensures
+                final(w).inv(),
+                final(w).kept(*old(w)) && final(w).steps == old(w).steps + 1 && final(w).opens == old(w).opens + 1,
+                final(w).now == old(w).now && final(w).listed == old(w).listed && final(w).published == old(w).published && final(w).supplied == old(w).supplied,
+                final(w).dirs == old(w).dirs,
+                match r {
+                    Ok(t) => {
+                        &&& final(w).hard_faults == old(w).hard_faults
+                        &&& t.pathv().len() > 0 && parent(t.pathv()) == cowv(dir) && single_component(base_name(t.pathv()))
+                        &&& !old(w).files.contains_key(t.pathv()) && !old(w).inodes.contains_key(t.ino())
+                        &&& final(w).files == old(w).files.insert(t.pathv(), t.ino())
+                        &&& final(w).inodes == old(w).inodes.insert(
+                            t.ino(),
+                            Inode { content: Seq::<u8>::empty(), writable: true, mode: 0o600, mtime: trunc(old(w).now, old(w).gran), atime: trunc(old(w).now, old(w).gran), synced: false },
+                        )
+                        &&& final(w).owned == old(w).owned.insert(t.pathv())
+                    },
+                    Err(e) => final(w).same_fs(*old(w)) && final(w).owned == old(w).owned && final(w).hard_faults == old(w).hard_faults + 1,
+                },
+        {
+            unimplemented!()
+        }
+
+        #[verifier::external_body]
+        pub fn as_file(&self) -> (r: &std::fs::File)
+            ensures
+                r.ino() == self.ino(),
+                r.can_write(),
+        {
+            unimplemented!()
+        }
+
+        #[verifier::external_body]
+        pub fn into_parts(self) -> (r: (std::fs::File, TempPath))
+            ensures
+                r.0.ino() == self.ino(),
+                r.0.can_write(),
+                r.1.pathv() == self.pathv(),
+        {
+            unimplemented!()
+        }
+    }
+}
